@@ -45,8 +45,8 @@ ASSUMPTIONS = [
     "(1 for BoundsEnforceLS)",
 ]
 BOUND = {'quick': '4 shards x 2000 cases (3/4 single update, 1/4 2-4 Newton iterations)',
-         'thorough': '16 shards x 20000 cases'}
-MIN_CLASS_FRACTION = {'judged': 0.8, 'clip_needed': 0.3, 'neg_scaling_bounded': 0.08, 'be_vector': 0.2, 'ls_AG': 0.3,
+         'thorough': '16 shards x 12000 cases (with Hypothesis shrinking of unlisted signatures)'}
+MIN_CLASS_FRACTION = {'judged': 0.99, 'clip_needed': 0.3, 'neg_scaling_bounded': 0.08, 'be_vector': 0.2, 'ls_AG': 0.3,
                       'start_on_bound': 0.2, 'multi_iter': 0.1}
 UNIT_TIMEOUT = {'quick': 1500, 'thorough': 4 * 3600}
 
@@ -386,6 +386,7 @@ def check(case):
         if sg is None:
             raise
         res.fail(pre + sg, f"{type(e).__name__}: {e}")
+        res.classes.append('judged')
         return res
 
     seq = trace + [final]
@@ -393,13 +394,17 @@ def check(case):
         raise RuntimeError(f"observed {len(seq) - 1} linearizations with maxiter={K}")
     if not np.all(np.isfinite(final)):
         res.fail(pre + 'non-finite-output', f"final outputs {final.tolist()}")
+        res.classes.append('judged')
         return res
     # the first linearization point is the start point (scaling round trip only)
     if trace:
         m0 = np.maximum.reduce([np.abs(u0), np.abs(ref), np.abs(ref0), np.full(n, TINY)])
         if np.any(np.abs(trace[0] - u0) > 1e-13 * m0):
             raise RuntimeError(f"first linearization point {trace[0].tolist()} is not u0 {u0.tolist()}")
-    elif float(np.max(np.abs(resid(case, u0)))) > 1e-100:      # (a norm of smaller entries underflows to 0)
+    elif np.any(np.abs(resid(case, u0)) > np.abs(np.array(case['a'])) * 1e-12 * np.maximum.reduce(
+            [np.abs(u0), np.abs(ref), np.abs(ref0), np.full(n, TINY)]) + 1e-100):
+        # (residual entries below 1e-100 underflow in the 2-norm; a step of round-off size can vanish in the scaling round
+        #  trip of u0: in both cases Newton rightly does not iterate)
         raise RuntimeError('no Newton iteration observed although the residual is non-zero')
 
     res.classes.append('judged')
@@ -418,6 +423,19 @@ def check(case):
         nupd += 1
         if judge_update(case, p0, p1, step, alpha, lo, hi, ref, ref0, be, negsc, res, f"update {k + 1}/{len(seq) - 1}"):
             break       # later iterations no longer start from a valid point
+        if k == 0 and ls == 'ArmijoGoldsteinLS':
+            # evidence only: did the line search contract the step after the bounds were enforced?
+            d1 = p1 - p0
+            if be == 'vector':
+                with np.errstate(divide='ignore', invalid='ignore'):
+                    room = np.where(step > 0, (hi - p0) / step, np.where(step < 0, (lo - p0) / step, np.inf))
+                tmax = max(0.0, min(alpha, float(np.min(room))))
+                ideal = tmax * step
+            else:
+                ideal = np.clip(p0 + alpha * step, lo, hi) - p0
+            m = np.maximum(np.abs(p0), np.abs(ideal)) + TINY
+            if np.any(np.abs(d1) < np.abs(ideal) - 1e-9 * m):
+                res.classes.append('ag_backtracked')
         if k > 0:
             f = p0 + alpha * step
             if np.any((f < lo) | (f > hi)):
@@ -625,7 +643,7 @@ def strategy(tier):
 
 def units(tier, seed):
     nshards = 4 if tier == 'quick' else 16
-    per = 2000 if tier == 'quick' else 20000
+    per = 2000 if tier == 'quick' else 12000
     return [{'kind': 'random', 'n': per, 'seed': core.shard_seed(seed, ID, i)} for i in range(nshards)]
 
 
